@@ -548,6 +548,52 @@ pub fn check_vtype(ctx: &Ctx, kind: Kind, out: &mut Outcome, q: u32, t: u32) {
     finish(ctx, "", acc, found, out, "vtype", &exec, &shrink);
 }
 
+/// C05, thorough tier only: long runs on estimators whose every insertion does a lot of internal
+/// work (a subnormal false-positive ratio gives ~1000 doorkeeper probes per insertion), so that
+/// internal event counters pass 2^32 within seconds
+pub fn check_long_runs(ctx: &Ctx, out: &mut Outcome) {
+    use caches::lfu::TinyLFU;
+    if ctx.tier != Tier::Thorough || ctx.scale < 1.0 {
+        return;
+    }
+    let configs: Vec<(usize, usize, f64)> = vec![(1, 1, f64::from_bits(1)), (4, 3, f64::MIN_POSITIVE), (16, 64, 1e-300), (2, 2, 1e-9)];
+    let results: Vec<Option<String>> = std::thread::scope(|sc| {
+        let hs: Vec<_> = configs
+            .iter()
+            .map(|&(size, samples, fp)| {
+                sc.spawn(move || {
+                    crate::inst::thread_init();
+                    let r = std::panic::catch_unwind(|| {
+                        let mut t: TinyLFU<u64> = match TinyLFU::new(size, samples, fp) {
+                            Ok(t) => t,
+                            Err(_) => return,
+                        };
+                        for i in 0..4_500_000u64 {
+                            t.increment_hashed_key(i.wrapping_mul(0x9E3779B97F4A7C15));
+                            if i % 1_000_003 == 0 {
+                                let _ = t.estimate_hashed_key(i);
+                            }
+                        }
+                    });
+                    r.err().map(|_| {
+                        let (loc, msg) = crate::inst::take_last_panic().unwrap_or_default();
+                        format!("TinyLFU::new({size}, {samples}, {fp:e}) panicked at {loc} during a run of 4.5 M increment_hashed_key calls: {msg}")
+                    })
+                })
+            })
+            .collect();
+        hs.into_iter().map(|h| h.join().unwrap_or(None)).collect()
+    });
+    out.coverage.insert("long_runs".into(), json!(configs.len()));
+    if let Some(msg) = results.into_iter().flatten().next() {
+        let v = Violation { prop: "C05", step: 0, msg, sig: "longrun/-/panic".into() };
+        if ctx.known.matches(&ctx.id, &v.sig).is_none() {
+            let path = write_replay(&ctx.replay_dir(), &ctx.id, "longrun", json!({"scenario": "4.5 M increments on estimators with subnormal false-positive ratios"}), &v);
+            out.violations.push((path, v.msg));
+        }
+    }
+}
+
 /// C19 at run time: every `&self` method from several threads at once on a shared cache
 pub fn check_conc(ctx: &Ctx, out: &mut Outcome) {
     let (made, bad) = crate::conc::run_conc(ctx.tier == Tier::Thorough);
